@@ -1,6 +1,7 @@
 /-
   Property C06 — pairwise comparison, dominating tiers and Condorcet consistency.
 -/
+import VK.Lemmas.Fill
 import VK.Lemmas.Reach
 import VK.Lemmas.Elect
 import VK.Model.Rules
@@ -299,5 +300,17 @@ theorem C06_dominating_sets_elects_top (p : Profile) (st : States) (h : dominati
   · rename_i t rest heq
     injection h with h; subst h
     exact ⟨t, rest, heq, by simp [electedOf, initialState], rfl⟩
+
+/-- **The recorded margins are the documented ones.** The code's head-to-head count on the profile
+in which every short ballot is replaced by all its completions (`ballot_fill`) equals the
+declarative count (listed beats unlisted, two unlisted candidates split evenly) — for every profile
+of untied ranked ballots over duplicate-free declared candidates. -/
+theorem C06_fill_correct (p : Profile) (a b : Cand) (hc : p.cands.Nodup) (hab : a ≠ b)
+    (ha : a ∈ p.cands) (hb : b ∈ p.cands)
+    (hrn : ∀ bl ∈ p.ballots, bl.ranking.flatten.Nodup)
+    (hrs : ∀ bl ∈ p.ballots, ∀ c ∈ bl.ranking.flatten, c ∈ p.cands)
+    (hlen : ∀ bl ∈ p.ballots, bl.ranking.length = bl.ranking.flatten.length) :
+    h2hFill p a b = h2h p a b :=
+  h2hFill_eq_h2h p a b hc hab ha hb hrn hrs hlen
 
 end VK
